@@ -150,6 +150,8 @@ def _run_session(ctx, driver, files, spec, timeout=60.0):
     if driver == "inline":
         tests = {k: v.decode("utf-8") for k, v in files.items() if k.endswith(".py") and k != "simlib.py" and "/" not in k}
         spec = dict(spec)
+        if spec.get("with_pyproject") and "pyproject.toml" in files:
+            tests["pyproject.toml"] = files["pyproject.toml"].decode("utf-8")  # the example project carries its [tool.black] options
         if (spec.get("fmt") or {}).get("kind") == "cmd":
             cfg = dict(spec.get("config") or {})
             cfg["format_command"] = FMT_CMD
